@@ -2,6 +2,9 @@ package props
 
 import (
 	"fmt"
+	nodetypes "github.com/SaoNetwork/sao/x/node/types"
+	sdk "github.com/cosmos/cosmos-sdk/types"
+	"saoverif/chain"
 
 	"saoverif/check"
 	"saoverif/world"
@@ -376,7 +379,11 @@ func init() {
 				n, cfg = 24, 120
 			}
 			for i := 0; i < n; i++ {
-				jobs = append(jobs, check.Job{Prop: "C08", Scenario: "life", Seed: seed*573259391 + int64(i), Args: map[string]string{"profile": "rewards"}})
+				a := map[string]string{"profile": "rewards"}
+				if i%2 == 1 {
+					a["baseline"] = "1000" // below the pledge: the full block reward is minted
+				}
+				jobs = append(jobs, check.Job{Prop: "C08", Scenario: "life", Seed: seed*573259391 + int64(i), Args: a})
 			}
 			for i := 0; i < cfg; i++ {
 				jobs = append(jobs, check.Job{Prop: "C08", Scenario: "config", Seed: seed*573259391 + 1000 + int64(i), Args: map[string]string{"config": fmt.Sprint(int(seed)*13 + i), "ops": "16"}})
@@ -455,6 +462,7 @@ func lifeProfile(name string) LifeParams {
 		p.Weights["claim"] = 12
 		p.Weights["addv"] = 6
 		p.Weights["removev"] = 6
+		rewardRegime(&p)
 	}
 	return p
 }
@@ -474,6 +482,15 @@ func scnLife(ctx *check.JobCtx) {
 	p.DrainCap = ctx.ArgInt("draincap", 13000)
 	if ctx.Arg("bigtimeout", "") == "1" {
 		p.BigTimeout = true
+	}
+	if bl := ctx.ArgInt("baseline", 0); bl > 0 {
+		prev := p.Params
+		p.Params = func(np *nodetypes.Params) {
+			if prev != nil {
+				prev(np)
+			}
+			np.Baseline = sdk.NewInt64Coin(chain.Denom, bl)
+		}
 	}
 	l := SetupLife(w, p)
 	l.Run()
@@ -526,5 +543,21 @@ func recipes(prop string, modes ...string) func(tier string, seed int64) []check
 			}
 		}
 		return jobs
+	}
+}
+
+// rewardRegime makes block rewards actually flow: capacities of tens of thousands of coins, a short halving
+// period, so that the baseline-limited rate (pledge x APY / (halving/2)) is tens of coins per block; callers vary
+// the baseline above / below the total pledge through Params.
+func rewardRegime(p *LifeParams) {
+	p.Capacity = 60_000_000_000
+	prev := p.Params
+	p.Params = func(np *nodetypes.Params) {
+		np.HalvingPeriod = 2000
+		np.AdjustmentPeriod = 100
+		np.Baseline = sdk.NewInt64Coin(chain.Denom, 1_000_000) // above the pledge of a handful of providers: baseline-limited minting
+		if prev != nil {
+			prev(np)
+		}
 	}
 }
